@@ -57,7 +57,7 @@ KINDS = (
     + [("fire", d) for d in (0, 1, 2, 3)]
     + [("fail", d) for d in (0, 1, 2, 3)]
     + [("stop", d) for d in (1, 2, 3)]
-    + [("firestop", 1), ("failstop", 1)]
+    + [("firestop", 1), ("failstop", 1), ("busy_stop",)]
 )
 EXTRAS = ("none", "junk_before", "junk_after", "selectable", "junk_after+selectable")
 SMALL_KINDS = [("ret",), ("fire", 1), ("fail", 1), ("fire", 3), ("stop", 1)]
@@ -113,11 +113,12 @@ def make_function(reactor, spinner, spec, rec, run_index, timeout=None):
         if k == "reenter":
             return spinner.run(TIMEOUT, lambda: None)
         if k == "reenter_survived":
-            # re-entrant use is refused every time, also after a refusal was caught
+            # re-entrant use is refused every time, also after a refusal was caught - and also when
+            # it comes through a second Spinner object made for the same (already spinning) reactor
             rec.reenter = []
             for attempt in range(3):
                 try:
-                    spinner.run(TIMEOUT, lambda: "inner")
+                    (spinner if attempt != 1 else type(spinner)(reactor)).run(TIMEOUT, lambda: "inner")
                     rec.reenter.append("ran")
                 except ReentryError:
                     rec.reenter.append("refused")
@@ -149,6 +150,17 @@ def make_function(reactor, spinner, spec, rec, run_index, timeout=None):
 
             rec.calls.append(reactor.callLater(kind[1], deliver_then_stop))
             return d
+        if k == "busy_stop":
+            # a slow synchronous callback keeps the reactor busy past the timeout AND past a stop
+            # request due after it: both are overdue when the reactor gets control back and run in
+            # due-time order in one pass - the timeout elapsed first
+            def busy():
+                reactor._vnow += TIMEOUT + 1.0
+
+            rec.calls.append(reactor.callLater(0, busy))
+            rec.calls.append(reactor.callLater(TIMEOUT + 0.5, reactor.stop))
+            rec.deferred = defer.Deferred()
+            return rec.deferred
         if k == "stop":
             # the function itself asks the reactor to stop (as a signal handler would)
             rec.calls.append(reactor.callLater(kind[1], reactor.stop))
@@ -202,6 +214,9 @@ def model_outcomes(spec, run_index, interrupt_at):
     if k == "stop":
         events.append(((kind[1], 0), ("raised", "NoResultError", None)))
     events.append(((TIMEOUT, 0), ("raised", "TimeoutError", None)))
+    if k == "busy_stop" and interrupt_at is not None:
+        # (the clock is no guide to what came first once a callback has overrun the timeout)
+        return {("raised", "TimeoutError", None), ("raised", "NoResultError", None)}
     if interrupt_at is not None:
         events.append(((interrupt_at, 1), ("raised", "NoResultError", None)))
     first = min(t for t, _ in events)
